@@ -108,6 +108,8 @@ def oracle(case, impl):
     idle_since = 0 if case[2] == "in" else None
     now = 0
     prev_d = 0
+    # "once the last handle is dropped it is closed and unregistered after 32 s without traffic":
+    # idle_since = instant of the last drop-to-zero or of the last message on the unreferenced connection
     for g, o in zip(groups, obs):
         f = dict(x.split("=", 1) for x in o.split())
         m, d = int(f["m"]), int(f["d"])
@@ -116,11 +118,15 @@ def oracle(case, impl):
         garbage = False
         for e in g.split(","):
             if e == "drop":
+                if refs == 1:
+                    idle_since = now
                 refs = max(0, refs - 1)
             elif e == "clone" and refs > 0:
                 refs += 1
             elif e == "frame" and not closed:
                 frames_sent += 1
+                if refs == 0:
+                    idle_since = now
             elif e == "close":
                 closed = True
             elif e == "garbage":
@@ -134,6 +140,7 @@ def oracle(case, impl):
                     if gone:
                         return ["a connection that had been closed/unregistered was selected for a new request"]
                     refs += 1
+                    idle_since = None
         # delivered: never more than sent, never decreasing, and everything sent before close/garbage is delivered
         if d > frames_sent or d < prev_d:
             return ["delivered count %d with %d messages written" % (d, frames_sent)]
@@ -142,6 +149,12 @@ def oracle(case, impl):
         prev_d = d
         if closed or garbage:
             gone = True
+        if refs == 0 and idle_since is not None and not closed and not garbage and not gone:
+            idle = now - idle_since
+            if idle < 32000 and (f["c"] == "1" or m == 0):
+                return ["the unreferenced connection was closed %d ms after its last use (handle drop / message), before the 32 s are over" % idle]
+            if idle > 32000 and f["c"] != "1":
+                return ["the unreferenced connection is still open %d ms after its last use" % idle]
         if f["c"] == "1":
             gone = True
             if refs > 0 and not closed and not garbage:
